@@ -372,6 +372,31 @@ type PatternQuery struct {
 	Locations []string               `json:"locations,omitempty"`
 }
 
+// UnmarshalJSON also accepts a bare pattern (without the "pattern"
+// wrapper), which is how 'GetRulePatterns' (the rule index) and
+// 'LinearState' read a rule's 'when' that has no "pattern" property.
+// Otherwise such a rule is found for its pattern and then evaluated
+// with a nil pattern, which matches everything and binds nothing.
+func (q *PatternQuery) UnmarshalJSON(bs []byte) error {
+	type plainPatternQuery PatternQuery
+	var plain plainPatternQuery
+	if err := json.Unmarshal(bs, &plain); err != nil {
+		return err
+	}
+	if plain.Pattern == nil {
+		var bare map[string]interface{}
+		if err := json.Unmarshal(bs, &bare); err != nil {
+			return err
+		}
+		if _, wrapped := bare["pattern"]; !wrapped && bare != nil {
+			plain.Pattern = bare
+			plain.Locations = nil
+		}
+	}
+	*q = PatternQuery(plain)
+	return nil
+}
+
 type FactService interface {
 	Search(ctx *Context, pattern Map) (*SearchResults, error)
 }
